@@ -3,13 +3,17 @@
    implementation's observations alone (mons). *)
 From ZenoV Require Import Lib.Harness Pause.PauseLts.
 
-Inductive op := OPause (c : nat) | OResume (c : nat) | OStop (w : nat) | OStopAll.
+Inductive op := OPause (c : nat) | OResume (c : nat) | OStop (w : nat) | OStopAll
+              | OHold (w : nat) | ORelease (w : nat).
 
-(* observation at quiescence: per controller "no call in progress", pause.IsPaused(), per worker
-   0 = in the main select, 1 = in the acknowledging send, 2 = returned, 3 = anywhere else;
+(* observation at quiescence (busy workers stay busy until the driver takes their item back):
+   per controller 0 = no call in progress, 1 = inside Resume collecting acknowledgements,
+   2 = waiting for the manager mutex, 3 = elsewhere inside a call;  pause.IsPaused();  per worker
+   0 = in the main select, 1 = in the acknowledging send, 2 = returned, 4 = busy with an item,
+   3 = anywhere else;
    number of subscribers; number of removed subscriptions whose PauseCh is closed; panic (or the
    quiescence safety deadline expired) *)
-Record obs := Ob { o_idle : list bool; o_paused : bool; o_ws : list nat; o_subs : nat; o_pcl : nat; o_bad : bool }.
+Record obs := Ob { o_ctl : list nat; o_paused : bool; o_ws : list nat; o_subs : nat; o_pcl : nat; o_bad : bool }.
 
 (* rounds: the ops issued together, and the observation once nothing moves *)
 Record pcase := PC { p_nw : nat; p_nc : nat; p_rounds : list (list op * obs) }.
@@ -24,15 +28,20 @@ Definition apply_op (v : variant) (s : state) (o : op) : state :=
   | OResume c => try_step v s (LCall c KResume)
   | OStop w => try_step v s (LStop w)
   | OStopAll => fold_left (fun s w => try_step v s (LStop w)) (seq 0 (nw s)) s
+  | OHold w => try_step v s (LWork w)       (* only a worker in its main select takes the item *)
+  | ORelease w => try_step v s (LDone w)
   end.
 
-Definition settle (v : variant) (s : state) : state := quiesce v (S (mu s)) s.
+(* every system step except the end of an item, which is the driver's to decide *)
+Definition settle (v : variant) (s : state) : state := quiesce_h v (S (mu s)) s.
 
 Definition wcode (x : wst) : nat :=
-  match w_pc x with WRun => 0 | WAck => 1 | WGone => 2 | _ => 3 end.
+  match w_pc x with WRun => 0 | WAck => 1 | WGone => 2 | WBusy => 4 | _ => 3 end.
+Definition ccode (x : cpc) : nat :=
+  match x with CIdle => 0 | CRRange _ _ => 1 | CPStart | CRStart => 2 | _ => 3 end.
 
 Definition project (s : state) : obs :=
-  Ob (map (fun c => is_idle_c (ct s c)) (seq 0 (nc s)))
+  Ob (map (fun c => ccode (ct s c)) (seq 0 (nc s)))
      (paused s)
      (map (fun w => wcode (wk s w)) (seq 0 (nw s)))
      (length (filter (fun w => w_sub (wk s w)) (seq 0 (nw s))))
@@ -52,7 +61,7 @@ Fixpoint nats_eqb (a c : list nat) : bool :=
   | _, _ => false
   end.
 Definition obs_eqb (a c : obs) : bool :=
-  bools_eqb (o_idle a) (o_idle c) && Bool.eqb (o_paused a) (o_paused c) &&
+  nats_eqb (o_ctl a) (o_ctl c) && Bool.eqb (o_paused a) (o_paused c) &&
   nats_eqb (o_ws a) (o_ws c) && Nat.eqb (o_subs a) (o_subs c) && Nat.eqb (o_pcl a) (o_pcl c) &&
   Bool.eqb (o_bad a) (o_bad c).
 
@@ -90,6 +99,10 @@ Definition cancel_op (canc : list bool) (o : op) : list bool :=
 Definition is_pause (o : op) := match o with OPause _ => true | _ => false end.
 Definition is_resume (o : op) := match o with OResume _ => true | _ => false end.
 
+Definition is_zero (n : nat) : bool := Nat.eqb n 0.
+(* no worker is inside an item: the observation is one of a fully quiescent process *)
+Definition full (o : obs) : bool := negb (existsb (Nat.eqb 4) (o_ws o)).
+
 (* generic fold over the rounds with the set of cancelled workers *)
 Fixpoint all_rounds (f : list bool -> list op -> obs -> bool) (canc : list bool)
          (rs : list (list op * obs)) : bool :=
@@ -102,9 +115,11 @@ Fixpoint all_rounds (f : list bool -> list op -> obs -> bool) (canc : list bool)
 Definition over_rounds (f : pcase -> list bool -> list op -> obs -> bool) (c : pcase) : bool :=
   all_rounds (f c) (repeat false (p_nw c)) (p_rounds c).
 
-(* 0 calls_complete: once nothing moves, no Pause / Resume call is still in progress *)
+(* 0 calls_complete: once nothing moves (and no worker is still inside an item), no Pause / Resume
+   call is in progress *)
 Definition mon_calls_return : pcase -> bool :=
-  over_rounds (fun (c : pcase) _ _ (o : obs) => Nat.eqb (length (o_idle o)) (p_nc c) && forallb (fun b => b) (o_idle o)).
+  over_rounds (fun (c : pcase) _ _ (o : obs) =>
+    Nat.eqb (length (o_ctl o)) (p_nc c) && (negb (full o) || forallb is_zero (o_ctl o))).
 
 (* 1 no panic (send on a closed channel), quiescence reached *)
 Definition mon_no_panic : pcase -> bool := over_rounds (fun _ _ _ (o : obs) => negb (o_bad o)).
@@ -120,6 +135,7 @@ Definition mon_stopped_gone : pcase -> bool :=
    send (takes no work) iff the manager is paused *)
 Definition mon_follow_flag : pcase -> bool :=
   over_rounds (fun _ canc _ (o : obs) =>
+    negb (full o) ||
     forallb (fun kw : bool * nat => if fst kw then true else Nat.eqb (snd kw) (if o_paused o then 1 else 0))
             (combine canc (o_ws o))).
 
@@ -128,11 +144,38 @@ Definition mon_follow_flag : pcase -> bool :=
 Definition mon_call_effect : pcase -> bool :=
   over_rounds (fun _ _ ops (o : obs) =>
     let np := existsb is_pause ops in let nr := existsb is_resume ops in
-    if np && negb nr then o_paused o else if nr && negb np then negb (o_paused o) else true).
+    if negb (full o) || negb (forallb is_zero (o_ctl o)) then true
+    else if np && negb nr then o_paused o else if nr && negb np then negb (o_paused o) else true).
 
 (* 5 no channel that a Pause may still be about to send on is ever closed (no_panic's reason) *)
 Definition mon_pausech_open : pcase -> bool := over_rounds (fun _ _ _ (o : obs) => Nat.eqb (o_pcl o) 0).
 
+(* 6 pause_sticks (C14_pause_sticks + C14_calls_complete): a Pause invoked by an idle controller
+   at a moment when every call in progress is a Resume that is already collecting (phase 1: none
+   waits for the mutex), and after which no Resume is invoked, leaves the manager paused and every
+   live worker acknowledging whenever all calls have returned and no worker is inside an item.
+   [prev]: controller phases at the previous observation; [armed]: such a Pause has been seen. *)
+Definition pause_by_idle (prev : list nat) (o : op) : bool :=
+  match o with OPause c => Nat.eqb (nth c prev 1) 0 | _ => false end.
+
+Fixpoint sticks (canc : list bool) (prev : list nat) (armed : bool) (rs : list (list op * obs)) : bool :=
+  match rs with
+  | [] => true
+  | (ops, o) :: r =>
+      let canc' := fold_left cancel_op ops canc in
+      let armed' :=
+        if existsb is_resume ops then false
+        else armed || (existsb (pause_by_idle prev) ops && forallb (fun p => Nat.leb p 1) prev) in
+      (if armed' && full o && forallb is_zero (o_ctl o)
+       then o_paused o &&
+            forallb (fun kw : bool * nat => if fst kw then true else Nat.eqb (snd kw) 1) (combine canc' (o_ws o))
+       else true)
+      && sticks canc' (o_ctl o) armed' r
+  end.
+
+Definition mon_pause_sticks (c : pcase) : bool :=
+  sticks (repeat false (p_nw c)) (repeat 0 (p_nc c)) false (p_rounds c).
+
 Definition mons (l : list pcase) :=
   mon_idx [mon_calls_return; mon_no_panic; mon_stopped_gone; mon_follow_flag; mon_call_effect;
-           mon_pausech_open] l.
+           mon_pausech_open; mon_pause_sticks] l.
